@@ -131,7 +131,7 @@ func (t *Tokenizer) Load(r io.Reader, handler oj.TokenHandler) (err error) {
 		err = nil
 	}
 	// A short first read must not hide a BOM: read on until it can be told.
-	for !eof && 0 < cnt && cnt < 4 && buf[0] == 0xEF {
+	for !eof && cnt < 4 && (cnt == 0 || buf[0] == 0xEF) {
 		var n int
 		n, err = r.Read(buf[cnt:cap(buf)])
 		cnt += n
